@@ -6,4 +6,5 @@ def run(tier):
     reps = deductive.verify_module('domain', nproc=12)
     for rel, q, c in DP.ITEMS:
         reps.append(deductive.verify_function(rel, q, c, hooks=DP.hooks_for(c)))
+    reps.append(deductive.lemma_report())
     return reps
